@@ -29,6 +29,10 @@ class Unsupported(Exception):
     pass
 
 
+class SpecError(Exception):
+    """a contract expression cannot be evaluated on this path (missing local, missing created object, ...)"""
+
+
 class PathEnd(Exception):
     """path ends here (infeasible, loop iteration finished, ...)"""
 
@@ -413,6 +417,24 @@ class Repo:
         return None
 
 
+def loop_header(n):
+    if isinstance(n, ast.For):
+        return 'for {} in {}'.format(ast.unparse(n.target), ast.unparse(n.iter))
+    return 'while {}'.format(ast.unparse(n.test))
+
+
+def _load_loop_headers():
+    import json
+    p = os.path.join(os.path.dirname(os.path.dirname(os.path.abspath(__file__))), 'contracts', 'loop_headers.json')
+    try:
+        return json.load(open(p))
+    except (OSError, ValueError):
+        return {}
+
+
+LOOP_HEADERS = _load_loop_headers()
+
+
 class Obligation:
     def __init__(self, func, kind, name, hyps, goal, line, decisive):
         self.func, self.kind, self.name, self.hyps, self.goal, self.line, self.decisive = \
@@ -676,7 +698,8 @@ class Engine:
         old = {k: self.snapshot(v) for k, v in env.items()}
         entry = dict(env)      # parameter names in postconditions denote the objects passed in (python may rebind the local)
         env['__old__'] = old   # old(e) is also available in loop invariants and hints
-        self.frames = [dict(contract=c, old=old, loopno=0, yields=[], rel=rel, qual=qual, node=node)]
+        self.frames = [dict(contract=c, old=old, loopno=0, yields=[], rel=rel, qual=qual, node=node,
+                            src=self.cur_func.split('#')[0])]
         for k in self.yield_sites(self.frames[0]).values():
             env['_y{}'.format(k)] = z3.IntVal(0)
         outcome = ('normal', None)
@@ -859,6 +882,12 @@ class Engine:
                 return
             if isinstance(base, VTuple) and base.kind == 'tuple':
                 raise PyExc('TypeError', t.lineno)
+            if isinstance(base, VSeq) and base.sortname == 'ISeq' and isinstance(t.value, ast.Name):
+                i = self.norm_index(idx, specs.ilen(base.term), t)
+                if not z3.simplify(toz(v) == -specs.iget(base.term, i)).eq(z3.BoolVal(True)):
+                    raise Unsupported('store into an abstract literal list other than an in-place negation')
+                env[t.value.id] = VSeq(specs.iflip1(base.term, i))     # the name now denotes the list with position i negated
+                return
             if isinstance(base, VOpaque):
                 return                       # store into an unmodelled container (e.g. the header dict)
             if isinstance(base, VArr):
@@ -987,10 +1016,26 @@ class Engine:
             loops = [n for n in ast.walk(fr['node']) if isinstance(n, (ast.For, ast.While))]
             loops.sort(key=lambda n: (n.lineno, n.col_offset))
             fr['loop_ids'] = {id(n): i for i, n in enumerate(loops)}
+            fr['loop_hdr'] = {i: loop_header(n) for i, n in enumerate(loops)}
         k = fr['loop_ids'].get(id(node))
         if k is None:
             raise Unsupported('loop not found in its function')
-        return k, fr['contract'].get('loops', {}).get(k)
+        specs_ = fr['contract'].get('loops', {})
+        if not specs_ or not fr.get('rel'):
+            return k, specs_.get(k)
+        # the invariants were written for the loop with a recorded header (contracts/loop_headers.json); if the loops
+        # of the function were added / removed / reordered, re-align by header, and give up (degrade) when that is not
+        # possible - misaligned invariants must never be mistaken for a property violation
+        rec = LOOP_HEADERS.get(fr.get('src') or '{}:{}'.format(fr['rel'], fr['qual']))
+        if rec is None:
+            return k, specs_.get(k)
+        hdr = fr['loop_hdr'][k]
+        if rec.get(str(k)) == hdr:
+            return k, specs_.get(k)
+        cands = [int(j) for j, h in rec.items() if h == hdr]
+        if len(cands) == 1:
+            return k, specs_.get(cands[0])
+        raise Unsupported('the loop structure of the function changed (loop `{}` has no recorded counterpart)'.format(hdr[:60]))
 
     def havoc_loop(self, body, env, spec, extra_names=()):
         names, attrs = self.assigned_names(body)
@@ -1024,13 +1069,31 @@ class Engine:
 
     def ghosts_at_entry(self, spec, env):
         for g, text in list(spec.get('ghost_at_entry', {}).items()) + list(spec.get('ghost_at_entry_vals', {}).items()):
-            env[g] = self.snapshot(self.spec_eval(text, env))
+            try:
+                env[g] = self.snapshot(self.spec_eval(text, env))
+            except SpecError:
+                continue
             if isinstance(env[g], VMList):
                 env[g] = VSeq(env[g].term)
 
     def check_inv(self, spec, env, kind, line):
         for t in spec.get('inv', []):
-            self.oblige(kind, t, self.spec_eval(t, env), line, decisive=False)
+            try:
+                g = self.spec_eval(t, env)
+            except SpecError as se:
+                self.oblige(kind, '{}   [not expressible here: {}]'.format(t, se), False, line, decisive=False)
+                continue
+            self.oblige(kind, t, g, line, decisive=False)
+
+    def assume_inv(self, t, env, targets):
+        """assume one invariant clause after the havoc (definitional form when possible); an inexpressible clause is skipped
+        (its check already failed as an auxiliary obligation)"""
+        try:
+            if self.definitional(t, env, targets):
+                return
+            self.assume(toz(self.spec_eval(t, env)))
+        except SpecError:
+            return
 
     def exec_while(self, s, env):
         k, spec = self.loop_spec(s)
@@ -1042,9 +1105,7 @@ class Engine:
         self.check_inv(spec, env, 'inv-init', s.lineno)
         hv = self.havoc_loop(s.body, env, spec)
         for t in spec.get('inv', []):
-            if self.definitional(t, env, hv):
-                continue
-            self.assume(toz(self.spec_eval(t, env)))
+            self.assume_inv(t, env, hv)
         guard = as_bool(self.eval(s.test, env))
         if self.choose(2) == 0:
             self.assume(toz(guard))
@@ -1130,9 +1191,7 @@ class Engine:
         self.assume(z3.And(i >= 0, i <= niter))
         self.assign(s.target, elem(i), env)
         for t in spec.get('inv', []):
-            if self.definitional(t, env, [h for h in hv if h not in tnames and h != itname]):
-                continue
-            self.assume(toz(self.spec_eval(t, env)))
+            self.assume_inv(t, env, [h for h in hv if h not in tnames and h != itname])
         if self.choose(2) == 0:
             self.assume(i < niter)
             try:
@@ -1142,7 +1201,10 @@ class Engine:
             except ContinueSig:
                 pass
             for h in spec.get('hints', []):      # ghost lemma steps: proved (auxiliary), then available
-                self.oblige('hint', h, self.spec_eval(h, env), s.lineno, decisive=False)
+                try:
+                    self.oblige('hint', h, self.spec_eval(h, env), s.lineno, decisive=False)
+                except SpecError as se:
+                    self.oblige('hint', '{} [not expressible: {}]'.format(h, se), False, s.lineno, decisive=False)
             env[itname] = i + 1
             self.assign(s.target, elem(i + 1), env)
             self.check_inv(spec, env, 'inv-pres', s.lineno)
@@ -1151,7 +1213,10 @@ class Engine:
         # python leaves the target at the last element; model: keep symbolic elem(niter-1) when niter>0
         self.assign(s.target, elem(i - 1), env)
         for h in spec.get('exit_hints', []):       # ghost lemma steps at loop exit: proved (auxiliary), then available
-            self.oblige('hint', h, self.spec_eval(h, env), s.lineno, decisive=False)
+            try:
+                self.oblige('hint', h, self.spec_eval(h, env), s.lineno, decisive=False)
+            except SpecError as se:
+                self.oblige('hint', '{} [not expressible: {}]'.format(h, se), False, s.lineno, decisive=False)
         self.exec_block(s.orelse, env)
 
     def eval_iter(self, e, env):
@@ -1219,6 +1284,9 @@ class Engine:
             return VSpecFn(SPEC_FUNCS[e.id])
         if e.id in BUILTINS:
             return VSpecFn(BUILTINS[e.id])
+        if getattr(self, 'in_spec', False):
+            # a contract expression names something that does not exist on this path (e.g. the code was restructured)
+            raise SpecError('contract expression refers to `{}`, which is not bound here'.format(e.id))
         # module-level function or class or import
         return ('global', e.id)
 
@@ -2149,10 +2217,6 @@ def sf_created(eng, node, cls, i):
     return objs[i]
 
 
-class SpecError(Exception):
-    pass
-
-
 def sf_lam2(eng, node, env):
     """lam2(lambda x, w: expr) -> ghost function value"""
     lam = node.args[0]
@@ -2248,7 +2312,7 @@ SPEC_FUNCS = {
     'ohaszero': _wrap(specs.ohaszero), 'onormal': _wrap(specs.onormal),
     'mkcon': _wrap(specs.mkcon), 'con_terms': _wrap(specs.Con.terms), 'con_op': _wrap(specs.Con.op), 'con_value': _wrap(specs.Con.value),
     'cmp_op': lambda eng, node, op, a, b: specs.cmp_op(_term(op), toz(a), toz(b)),
-    'rnbrs': _wrap(specs.rnbrs), 'lit_true': _wrap(specs.lit_true), 'apseq': _wrap(specs.apseq), 'negunits': _wrap(specs.negunits), 'asclauses': lambda eng, node, v: VSeq(_term(v)),
+    'rnbrs': _wrap(specs.rnbrs), 'lit_true': _wrap(specs.lit_true), 'iflips': _wrap(specs.iflips), 'neqprefix': _wrap(specs.neqprefix), 'idxcombs': _wrap(specs.idxcombs), 'apseq': _wrap(specs.apseq), 'negunits': _wrap(specs.negunits), 'asclauses': lambda eng, node, v: VSeq(_term(v)),
     'pfilter': _wrap(specs.pfilter), 'signvecs': _wrap(specs.signvecs),
     'psum': lambda eng, node, I, W, t: specs.psum(as_arr(I).arr, as_arr(W).arr, toz(t)),
     'zmax': lambda eng, node, a, b: zmax(toz(a), toz(b)),
@@ -2474,6 +2538,8 @@ BUILTINS = {'all': b_allany_raw, 'any': b_allany_raw, 'sorted': lambda eng, node
 
 
 def lib_combinations(eng, node, seq, k):
+    if isinstance(seq, VRange) and seq.step == 1 and (isinstance(seq.lo, int) and seq.lo == 0) and not isinstance(seq.hi, int):
+        return VSeq(specs.idxcombs(toz(seq.hi), toz(k)))
     if isinstance(seq, VSeq) and seq.sortname == 'ISeq':
         return VSeq(specs.combs(seq.term, toz(k)))
     if isinstance(seq, VTuple) and isinstance(k, int):
